@@ -537,7 +537,7 @@ func UniverseFor(t *rapid.T, tree *m.Node, collide bool) *Universe {
 	})
 	u.RegMode = rapid.IntRange(0, regModes-1).Draw(t, "regmode")
 	u.Decoys = rapid.IntRange(0, 5).Draw(t, "decoys") == 0
-	u.KeyBase = rapid.SampledFrom([]int{1, 0, 250, -3, 300, 2, 3}).Draw(t, "keybase") // (2, 3: the explicit keys leave 1 free and cover "number of names + 1")
+	u.KeyBase = rapid.SampledFrom([]int{1, 0, 250, -3, 300, 2, 3}).Draw(t, "keybase")            // (2, 3: the explicit keys leave 1 free and cover "number of names + 1")
 	u.KeyStride = rapid.SampledFrom([]int{1, 1, 1, 64, 256, 63, 128, 1024}).Draw(t, "keystride") // (at most 20 variables: keys stay below 32767)
 	return u
 }
